@@ -113,6 +113,16 @@ func cvSegments(s types.Segments) string {
 	return "(VL [" + strings.Join(parts, "; ") + "])"
 }
 
+func cvCard(c types.Card) string {
+	return fmt.Sprintf("(VL [%s; %s; %s; %s; %s])", cvN(int64(c.CardNumber)), cvDate(c.From), cvDate(c.To), cvZ(int(c.Doors[1]), int(c.Doors[2]), int(c.Doors[3]), int(c.Doors[4])), cvN(int64(c.PIN)))
+}
+func cvProfile(p types.TimeProfile) string {
+	return fmt.Sprintf("(VL [%s; %s; %s; %s; %s; %s])", cvN(int64(p.ID)), cvN(int64(p.LinkedProfileID)), cvDate(p.From), cvDate(p.To), cvWeekdays(p.Weekdays), cvSegments(p.Segments))
+}
+func cvTask(t types.Task) string {
+	return fmt.Sprintf("(VL [%s; %s; %s; %s; %s; %s; %s])", cvN(int64(t.Task)), cvN(int64(t.Door)), cvDate(t.From), cvDate(t.To), cvWeekdays(t.Weekdays), cvHHmm(t.Start), cvN(int64(t.Cards)))
+}
+
 type tyInfo struct {
 	coq   string
 	fresh func() any         // pointer to a fresh zero value
@@ -134,6 +144,9 @@ func tyTable() map[string]tyInfo {
 		"Listen":   {"(TyAddr RListen)", func() any { return new(types.ListenAddr) }, func(p any) string { return cvAddr(p.(*types.ListenAddr).AddrPort) }},
 		"Ctrl":     {"(TyAddr RController)", func() any { return new(types.ControllerAddr) }, func(p any) string { return cvAddr(p.(*types.ControllerAddr).AddrPort) }},
 		"Weekdays": {"TyWeekdays", func() any { return new(types.Weekdays) }, func(p any) string { return cvWeekdays(*p.(*types.Weekdays)) }},
+		"Card":     {"TyCard", func() any { return new(types.Card) }, func(p any) string { return cvCard(*p.(*types.Card)) }},
+		"Profile":  {"TyProfile", func() any { return new(types.TimeProfile) }, func(p any) string { return cvProfile(*p.(*types.TimeProfile)) }},
+		"Task":     {"TyTask", func() any { return new(types.Task) }, func(p any) string { return cvTask(*p.(*types.Task)) }},
 		"Segments": {"TySegments", func() any { return new(types.Segments) }, func(p any) string { return cvSegments(*p.(*types.Segments)) }},
 	}
 }
@@ -371,7 +384,8 @@ func runC14(o Opts) error {
 				}
 			}
 			if zi == 0 || i < 4 {
-				c14composite(s, "Card", types.Card{CardNumber: genCardNo(r), From: dt, To: types.ToDate(y, time.Month(m), 28), Doors: map[uint8]uint8{1: r.Byte(), 2: 0, 3: 1, 4: r.Byte()}, PIN: types.PIN(r.Intn(1000000))}, new(types.Card), z)
+				card := types.Card{CardNumber: genCardNo(r), From: dt, To: types.ToDate(y, time.Month(m), 28), Doors: map[uint8]uint8{1: r.Byte(), 2: 0, 3: 1, 4: r.Byte()}, PIN: types.PIN([]int{0, 1, 999999, r.Intn(1000000)}[r.Intn(4)])}
+				c14composite(s, "Card", card, new(types.Card), z)
 				w, _ := genWeekdays(r)
 				if w == nil {
 					w = types.Weekdays{}
@@ -382,8 +396,19 @@ func runC14(o Opts) error {
 				for _, dd := range []time.Weekday{0, 1, 2, 3, 4, 5, 6} {
 					full[dd] = w[dd]
 				}
-				c14composite(s, "TimeProfile", types.TimeProfile{ID: 2 + genU8(r)%250, LinkedProfileID: genU8(r), From: dt, To: dt, Weekdays: full, Segments: segs}, new(types.TimeProfile), z)
-				c14composite(s, "Task", types.Task{Task: types.TaskType(r.Intn(13)), Door: genU8(r), From: dt, To: dt, Weekdays: full, Start: types.NewHHmm(h1, m1), Cards: genU8(r)}, new(types.Task), z)
+				from := dt
+				if i%5 == 4 {
+					from = types.Date{} // profiles and tasks may carry the zero date
+				}
+				prof := types.TimeProfile{ID: 2 + genU8(r)%250, LinkedProfileID: []uint8{0, genU8(r)}[r.Intn(2)], From: from, To: dt, Weekdays: full, Segments: segs}
+				c14composite(s, "TimeProfile", prof, new(types.TimeProfile), z)
+				task := types.Task{Task: types.TaskType(r.Intn(13)), Door: []uint8{0, 1, 4, genU8(r)}[r.Intn(4)], From: from, To: dt, Weekdays: full, Start: types.NewHHmm(h1, m1), Cards: []uint8{0, genU8(r)}[r.Intn(2)]}
+				c14composite(s, "Task", task, new(types.Task), z)
+				if tc := time.Time(card.To); tc.Day() == 28 && int(tc.Month()) == m { // dates that exist as days in this zone
+					c14round(s, "Card", card, cvCard(card), "", z, "round/card")
+				}
+				c14round(s, "Profile", prof, cvProfile(prof), "", z, "round/time-profile")
+				c14round(s, "Task", task, cvTask(task), "", z, "round/task")
 				composites += 3
 			}
 		}
